@@ -11,6 +11,8 @@ import (
 	"runtime/debug"
 	"sort"
 	"strings"
+	"sync/atomic"
+	"time"
 
 	"github.com/AsaiYusuke/jsonpath"
 	"verif/internal/hooks"
@@ -27,6 +29,30 @@ type Outcome struct {
 
 type Func = func(src interface{}) ([]interface{}, error)
 
+// In-library clock: lets the worker's watchdog tell a library call that does not return from a slow
+// harness (generator, oracle). inFlight counts wrapped library calls in progress, since is when it
+// last went from 0 to 1.
+var (
+	inFlight int64
+	since    int64
+)
+
+func libEnter() {
+	if atomic.AddInt64(&inFlight, 1) == 1 {
+		atomic.StoreInt64(&since, time.Now().UnixNano())
+	}
+}
+
+func libExit() { atomic.AddInt64(&inFlight, -1) }
+
+// InLibraryFor reports for how long library calls have been continuously in progress (0 if none is).
+func InLibraryFor() time.Duration {
+	if atomic.LoadInt64(&inFlight) <= 0 {
+		return 0
+	}
+	return time.Duration(time.Now().UnixNano() - atomic.LoadInt64(&since))
+}
+
 func guard(o *Outcome) {
 	if r := recover(); r != nil {
 		o.Panic = r
@@ -35,6 +61,8 @@ func guard(o *Outcome) {
 }
 
 func Retrieve(text string, src interface{}, cfg ...jsonpath.Config) (o Outcome) {
+	libEnter()
+	defer libExit()
 	defer guard(&o)
 	o.Res, o.Err = jsonpath.Retrieve(text, src, cfg...)
 	return
@@ -48,6 +76,8 @@ type ParseOutcome struct {
 }
 
 func Parse(text string, cfg ...jsonpath.Config) (o ParseOutcome) {
+	libEnter()
+	defer libExit()
 	defer func() {
 		if r := recover(); r != nil {
 			o.Panic = r
@@ -59,6 +89,8 @@ func Parse(text string, cfg ...jsonpath.Config) (o ParseOutcome) {
 }
 
 func Call(f Func, src interface{}) (o Outcome) {
+	libEnter()
+	defer libExit()
 	defer guard(&o)
 	o.Res, o.Err = f(src)
 	return
@@ -143,7 +175,7 @@ func JS(v interface{}) string {
 }
 
 func writeJS(b *strings.Builder, v interface{}, depth int) {
-	if depth > 40 {
+	if depth > 2000 {
 		b.WriteString("<deep>")
 		return
 	}
